@@ -7,6 +7,8 @@ TECH_K = 'contract-based deductive verification: Kani/CBMC complete (loop-free, 
 CLAIMED = {
  'C03': dict(engine='verus', tech=TECH_V + ' (await-erased); bounded response table stand-in (labelled bounded, never counted)', text='Kernel contract only: <Option<T> as OutputType>::resolve (await-erased) is proved to turn an inner error into Ok(Null) with the error recorded exactly once, and to leave successful values and the error list untouched. Error propagation through the executor is only sampled by a hand-written response table (three open known findings).',
              note='Trusted: await-erasure (sequential reading), Mutex-guarded error list as &mut state, abstract inner resolve. Not covered: try_join_all short-circuiting, list items, derive-generated resolve_field, dynamic executor, subscriptions.'),
+ 'C06': dict(engine='verus', tech=TECH_V + '; bounded coercion-table stand-in (labelled bounded, never counted)', text='Kernel contracts only: <Option<T> as InputType>::parse and <MaybeUndefined<T> as InputType>::parse are proved to map omitted / null / value exactly as CoerceArgumentValues prescribes (omitted and null -> None; Undefined / Null / Value), delegating non-null values to the wrapped type. Variable substitution and defaults are only sampled by a hand-written coercion table on a static and a dynamic schema.',
+             note='Trusted: wrapped type parse abstract. Not covered: context.rs::{var_value, resolve_input_value_inner, get_param_value} (closure chains), derive-generated InputObject parse, dynamic collect_field argument block.'),
  'C07': dict(engine='verus', tech=TECH_V, text='Kernel contracts only: ScalarType::{parse,to_value,is_valid} of the integer scalars are proved, for all values, to accept exactly the type\'s integer range and to round-trip (parse(to_value(x)) == Ok(x)).',
              note='Trusted: serde_json::Number model (as_i64/as_u64/From), 64-bit usize, extraction rewrites R-self/R-msg/R-closure/R-from. Not covered: the #[Scalar] macro wrapper, floats, derive-generated enums.'),
  'C08': dict(engine='verus+kani', tech=TECH_K + '; ' + TECH_V, text='Kernel contracts only: maximum/minimum for every (T,N) the derive can generate are proved on the compiled real code against exact arithmetic (Kani, complete); multiple_of::<int,i64> and the six length validators are proved with Verus. Three open known findings are carved out and re-confirmed on every run.',
@@ -31,6 +33,8 @@ CLAIMED = {
              note='Trusted: HashMap lookup shim, String equality axiom; termination of filter not proved (cyclic fragments are rejected by validation, unverified). Not covered: SelectionFieldsIter (context.rs), resolved argument values, @skip/@include pruning (C01 kernel, not composed).'),
  'C29': dict(engine='verus', tech=TECH_V + '; bounded history stand-in for the async DataLoader API (labelled bounded, never counted)', text='Kernel contracts only: get/insert/remove/clear of HashMapCacheImpl, LruCacheImpl and NoCacheImpl are proved against an abstract map view stated over the whole map (LRU: hit refreshes recency, insert at capacity evicts exactly the least recently used). The async DataLoader operations are only exercised on bounded single-threaded histories.',
              note='Trusted: std HashMap and lru::LruCache shims with their documented semantics; K = V = u64 instantiation. Not covered: DataLoader::{load_many, feed_many, enable_cache, ...} (async, scc::HashMap, dyn Any) beyond the bounded histories; interleavings (C28).'),
+ 'C32': dict(engine='verus', tech=TECH_V + ' (await-erased); bounded stand-in for the cursor codecs (labelled bounded, never counted)', text='Kernel contract only: connection::query_with (await-erased) is proved to return a validation error for a negative first/last, a decode error for an undecodable cursor, and otherwise exactly the result of the user function applied to the decoded cursors and the losslessly cast first/last.',
+             note='Trusted: await-erasure; user callback and CursorType::decode_cursor abstract; error values reduced to their origin. Not covered: cursor.rs codecs (std FromStr/Display, base64+serde), page_info, Edge/Connection assembly.'),
  'C33': dict(engine='verus', tech=TECH_V, text='Kernel contracts only: TypeRef::is_subtype equals the spec\'s IsValidImplementationFieldType (named types identical), is_nullable/type_name/typeref_nonnullable_name against their definitions, for all type-reference trees.',
              note='Trusted: String equality axiom, Cow<str> represented as String. Not covered: the IndexMap-driven check_* loops of dynamic/check.rs, post-build robustness.'),
 }
